@@ -94,6 +94,33 @@ CLAIMS["C20"] = dict(
     technique="exact rational TLA+ model, TLC enumeration of a lattice replayed on the C++ functions, TLC trace validation with integer slack",
     design="DESIGN.md §3.5, §4 C20")
 
+CLAIMS["C01"] = dict(
+    category="model_checking",
+    text=("NifWire.tla states the round-trip machine (Raw -> Normal): own output loads, the raw re-save of the library's output is equal "
+          "field by field (header tables, per-block type/size/masked content id/reference values/string indices) and byte by byte, the "
+          "default-save chain is a fixed point from round 2. NifWireMC enumerates the configuration space with TLC - all 304 registered "
+          "block types (read from the factory) x 11 version triples x 3 population modes, plus value boosting of one scalar at a time - and "
+          "the harness executes exactly those configurations: a typed generator driven by hooks H2-H4 feeds factory->Load() to obtain a "
+          "populated instance that the library then writes, reloads and rewrites; the 26 sample files run through the same machine. "
+          "Every record is judged by TLC (NifWireTrace)."),
+    note=("Byte equality inside a payload is hash equality computed by the harness; TLC adds protocol and localisation. Instances for which "
+          "the generator exceeds its budget or whose generator input makes the reader fail are outside the quantifier; crashes are attributed "
+          "by a re-run under ASan. Counts <= 3."),
+    technique="TLC-enumerated configuration space of a TLA+ round-trip machine executed on the implementation; TLC trace validation of the recorded files",
+    design="DESIGN.md §3.2, §4 C01")
+CLAIMS["C07"] = dict(
+    category="model_checking",
+    text=("NifWire!WellFormedViol is the property: table lengths, type indices in range, no unused or duplicate type name, a walk over the "
+          "size table from the end of the header lands on the 8-byte footer at end of file, sizes sum to the file length, true maximum string "
+          "length, each string once, every string index stored in a block empty or inside the table. It is evaluated by TLC on what an "
+          "independent reader (own header parser + size walk, no nifly code) sees in every file written by the round-trip machine of C01 "
+          "(304 types x versions x modes, samples) and in files written after seeded edit sequences (graph edits, vertex deletion, LE<->SE "
+          "conversion, cloning, fresh blocks, same-type replacement; raw and default saves)."),
+    note=("Trusted: the independent parser, hook H3 for the position of string indices inside payloads. Oblivion files (no size table) are "
+          "walked with sizes measured by Put()."),
+    technique="independent header/size-table reader + TLA+ well-formedness predicate evaluated by TLC on every recorded file (trace validation)",
+    design="DESIGN.md §3.2, §4 C07")
+
 NOT_YET = {}
 
 
